@@ -216,6 +216,10 @@ func genNameLabel(rng *rand.Rand) string {
 	case 7:
 		// adjacent hyphens, in host and service labels
 		l = pick(rng, "a--b", "_a--b", "_my--svc", "x---y", "_--", "xn--a--b", "_a-", "_-a")
+	case 8:
+		// digits and inner hyphens only (a non-digit that is not a letter): a valid final label;
+		// and other labels whose only non-digit is a single letter or hyphen at some position
+		l = pick(rng, "1-2", "0-0", "2024-09-27", "1--2", "1-a", "a-1", "9a", "a9", "0x1", "1e3", "00-", "-00", "0-", "007a", "1-2-3-4")
 	}
 	return l
 }
